@@ -16,7 +16,7 @@ def gen(c, binary):
 
 def run(c):
     c.rule = ("random fault schedules (insert failure, lost answer / timeout, aggregator down/up, agent graceful stop or crash, "
-              "replica marked dead, memory pressure, clock jumps, undecodable requests) over one real agent shard, three real aggregator "
+              "replica marked dead, historic memory budget nearly used up (exact ballast), disk cache switched off at run time, clock jumps, undecodable requests) over one real agent shard, three real aggregator "
               "replicas and a fake ClickHouse, followed by a fault-free continuation; one real call per model op; "
               "non-trivial = at least one fault AND at least one historic (re)send; distinct by op-sequence hash")
     c.assumptions += [
@@ -27,6 +27,10 @@ def run(c):
         "goTicker's conveyor-full branch and goEraseHistoric's disk-limit branch are not stepped (real-time / deliberate drops); "
         "the first is covered by the -mode=conveyor real-time scenario and a generated decision-site fact",
         "disk cache record format, torn writes and read errors are property C09",
+        "the historic memory limit is a 50 MiB constant: the harness adds an exactly accounted ballast to historicBucketsDataSize "
+        "(model unit = one generated second's compressed size, model limit 1000 units) and diffs the counter after every op",
+        "wake-up discipline on Shard.cond: model Wake (signal = wake one waiter, lost if none) + real-time tier -mode=wakeup with the real "
+        "goSendHistoric/goEraseHistoric goroutines and the real flushBuckets clock advance (budget 40 s for an expected ~3 s)",
     ]
     binary = c.go_build(HARNESS)
     if binary:
@@ -74,7 +78,13 @@ META = {
              "ClickHouse) and on the compiled model, diffing every request, answer, INSERT body, queue, disk-cache and window state. The direct "
              "oracle evaluates the property itself on the real outputs: no discard answer without a successful INSERT body carrying the second "
              "(or a legitimate rejection), no second leaving the agent without an acknowledgement, nothing silently lost at the end, and after "
-             "a fault-free continuation every held second inside the windows is in storage."),
+             "a fault-free continuation every held second inside the windows is in storage. Memory limit: historicBucketsDataSize equals the "
+             "data really queued (appendHist_exact), so a 'memory limit' drop happens only when the queue really is over the limit "
+             "(appendHist_drop_legit); diffed after every op and checked by the oracle (historic-size-accounting, false-memory-limit-drop). "
+             "Wake-up: with the signalling sites the source has now (regenerated: flushBuckets, appendHistoricBucketsToSend) a consumer is "
+             "runnable whenever the head of the historic queue can be popped, for every interleaving of clock, appends and consumers "
+             "(wake_invariant, wake_sites_now); dropping the flush signal breaks it (decide witness); the real goroutines are run in real "
+             "time on a second saved in the future before a restart (historic-sender-never-woken)."),
     "note": ("PARTIAL: the system-wide invariant no_silent_loss over arbitrary op lists and the schedule-existence liveness can_always_finish "
              "are stated (comment in SH/Props/C01.lean) but proved only per component (handler, inserter, sender step); end to end they are "
              "checked by the oracle and by kernel-evaluated scenarios, not by induction. Trusted/modelled: the rpc library (replaced by an "
